@@ -337,10 +337,14 @@ class INETBase(NLRI):
 
         Includes family, AddPath status, and wire bytes.
         """
+        # The two forms must not be able to spell each other: b'disabled' + packed could be
+        # read as a 4 byte path-id b'disa' followed by the mask byte b'b' (98), so an IPv6 /72
+        # without path-id shared its index with a /98 carrying that path-id. An explicit
+        # path-id now has its own tag; the tags start with different bytes (d, p) and have a
+        # fixed length, so no index is a reading of another.
         if self._has_addpath:
             # _packed already includes path bytes
-            return bytes(Family.index(self)) + self._packed
-        # No AddPath - add discriminator to distinguish from has_addpath=True with 0x00000000
+            return bytes(Family.index(self)) + b'path' + self._packed
         return bytes(Family.index(self)) + b'disabled' + self._packed
 
     def prefix_index(self) -> bytes:
